@@ -144,7 +144,7 @@ fn run_stress(cap: usize, pushers: usize, per: usize, consumes: usize) -> String
         let live = live.clone();
         hs.push(std::thread::spawn(move || {
             for i in 0..per {
-                r.push((t * 1_000_000 + i + 1) as f64);
+                r.push((t * 16_000_000 + i + 1) as f64);
                 if i % 64 == 0 { std::thread::yield_now(); }
             }
             live.fetch_sub(1, std::sync::atomic::Ordering::SeqCst);
@@ -184,7 +184,7 @@ fn run_stress(cap: usize, pushers: usize, per: usize, consumes: usize) -> String
             yielded += 1;
             if *v == 0.0 { stale0 += 1; continue; }
             let id = *v as usize;
-            let (t, i) = (id / 1_000_000, id % 1_000_000);
+            let (t, i) = ((id - 1) / 16_000_000, (id - 1) % 16_000_000 + 1);
             if v.fract() != 0.0 || t >= pushers || i == 0 || i > per { bad.push(format!("neverpushed={}", v)); }
             seen.insert(v.to_bits());
         }
